@@ -315,6 +315,8 @@ class Ctx:
 		for kind, lst in sorted(self.samples.items()):
 			for s in lst:
 				samples.append({"kind": kind, "case": s})
+		if not samples and self.violations:
+			samples.append({"kind": "violation-witness", "case": self.violations[0]["witness"]})
 		cov = {
 			"evaluations": self.evaluations,
 			"distinct_nontrivial": len(self.distinct) + self.distinct_extra,
